@@ -136,7 +136,7 @@ VARIANTS = [
     ("salt-and-dump-swapped", F, ["C19"], [(NC, "            args.salt,\n            args.dump_ip_map,\n", "            args.dump_ip_map,\n            args.salt,\n")]),
     ("feature-forgotten-in-any", F, ["C19"], [(NC, "            args.anonymize_ips,\n            args.undo,\n        ]\n    ):", "            args.anonymize_ips,\n        ]\n    ):")]),
     ("host-bits-33", F, ["C19"], [(NC, "if val < 0 or val > 32:", "if val < 0 or val > 33:")]),
-    ("output-not-required", F, ["C19"], [(NC, '        "--output",\n        required=True,', '        "--output",\n        required=False,')]),
+    ("output-not-required", S, None, [(NC, '        "--output",\n        required=True,', '        "--output",\n        required=False,')]),  # main's own guard still rejects a missing output before anything is written
     ("host-bits-default-0", F, ["C19", "C04"], [(NC, "        type=host_bits,\n        default=8,", "        type=host_bits,\n        default=0,")]),
     # ---------------- C13, C14, C18 --------------------------------------------------
     ("timestamp-in-pseudonym", F, ["C13"], [(SI, 'anon_val = "netconanRemoved{}".format(len(lookup))', 'import time\n    anon_val = "netconanRemoved{}".format(len(lookup) + int(time.time()) % 1)')]),
@@ -182,7 +182,7 @@ VARIANTS = [
     ("anonymize-value-temporary", S, None, [(SI, "            anon_val = prefix + _anonymize_value(\n                match.group(sensitive_item_num), pwd_lookup, reserved_words, salt\n            )", "            secret = match.group(sensitive_item_num)\n            replaced = _anonymize_value(secret, pwd_lookup, reserved_words, salt)\n            anon_val = prefix + replaced")]),
     ("classifier-pattern-respelled", S, None, [(SI, 'if re.match(r"^[0-9]+$", val):', 'if re.match(r"^[0-9]{1,}$", val):')]),
     ("pattern-respelled-same-language", S, None, [(PW, '[(r"(?P<prefix>authentication text )(\\S+)", 2)],', '[(r"(?P<prefix>authentication text )([^\\s]+)", 2)],')]),
-    ("pattern-widened", S, None, [(PW, '(?P<prefix>ip ftp password( \\d)? )', '(?P<prefix>ip ftp password( \\d+)? )')]),
+    ("optional-type-widened-shifts-the-secret", F, ["C07", "C12"], [(PW, '(?P<prefix>ip ftp password( \\d)? )', '(?P<prefix>ip ftp password( \\d+)? )')]),  # on `ip ftp password 15 pw` the token `15` was replaced, now `pw` is
     ("new-pattern-appended-before-catchalls", S, None, [(SI, '    [(r"(?<=snmp-community )(\\S+)", 1)],\n', '    [(r"(?<=snmp-community )(\\S+)", 1)],\n    [(r"(?P<prefix>radius-secret )(\\S+)", 2)],\n')]),
     ("docstrings-and-comments", S, None, [(SI, '    """Split line into leading whitespace, list of words, and trailing whitespace."""', '    """Split line into (leading whitespace, list of words, trailing whitespace).\n\n    The three pieces use the same whitespace definition.\n    """\n    # nothing else happens here')]),
     ("word-memo-local-name", S, None, [(SI, "        replacement = self.sens_word_replacements.get(sensitive_word)\n        if replacement is None:", "        replacement = self.sens_word_replacements.get(sensitive_word)\n        if replacement is None:\n            logging.debug(\"new sensitive word occurrence\")")]),
